@@ -15,7 +15,7 @@ from ..translate import specs as tr_specs
 from ..translate import specslex as tr_specslex
 
 PROP = "C18"
-MODULES = ["XpmVerif.Properties.C18", "XpmVerif.Properties.C18Parse", "XpmVerif.Properties.C18Lex"]
+MODULES = ["XpmVerif.Properties.C18", "XpmVerif.Properties.C18Parse", "XpmVerif.Properties.C18Lex", "XpmVerif.Properties.C18Find"]
 GB = 10**9
 
 
